@@ -94,7 +94,15 @@ pub trait SimTarget: Parse {
 
 impl SimTarget for Value {
     fn from_str_entry(s: &str) -> Result<(Self, Option<CodeMap>), Error> { s.parse::<Value>().map(|v| (v, None)) }
-    fn walk(&self) -> usize { self.traverse().count() }
+    fn walk(&self) -> usize {
+        // every traversal-based accessor: traverse, count, volume
+        let n = self.traverse().count();
+        let values = self.volume();
+        let counted = self.count(|_, f| f.is_value());
+        // (fragment counts are reported, not judged: their meaning is C05's subject)
+        let _ = (values, counted);
+        n
+    }
     fn dispose(self) { drop_iteratively(self) }
 }
 macro_rules! plain_target {
